@@ -19,6 +19,7 @@ from . import common
 
 KEY_ZERO_TAKE = "poulpy-cpu-ref/src/hal_defaults/scratch.rs:take_slice_aligned:zero-length-take:aligned_offset>len"
 KEY_DEALLOC = "poulpy-hal/src/lib.rs:alloc_aligned_custom_u8:dealloc-layout"
+KEY_ZERO_ROWS = "poulpy-hal/src/layouts/znx_base.rs:ZnxView::at:VmpPMat-with-zero-rows-or-cols_out"
 U64 = 1 << 64
 
 
@@ -148,6 +149,56 @@ def run(ctx):
             if ha[2] != "1" or int(ha[1]) > int(ha[0]):
                 ctx.oracle_failures += 1
                 oracle_fail.append({"case": l, "impl": a, "why": "MatZnx::at view outside the buffer"})
+        # ---- prepared / big layouts: trait at(i,j) / raw() of VecZnxBig, VecZnxDft, SvpPPol, CnvPVecL/R, VmpPMat on
+        #      the four back ends (scalar widths 8/8 and 16/32) vs the model; NTT120 consume (in-place compaction)
+        pl = []
+        for be in ("fft64ref", "ntt120ref", "fft64avx", "ntt120avx"):
+            for n in (2, 4, 8, 16):
+                for cols in (1, 2, 3):
+                    for size in (1, 2, 3, 5):
+                        for kind in ("big", "dft", "cnvl", "cnvr"):
+                            pl.append(f"{len(pl)} prep be={be} kind={kind} p={n},{cols},{size}")
+                    pl.append(f"{len(pl)} prep be={be} kind=svp p={n},{cols}")
+                for (rows, ci, co, size) in ((1, 1, 1, 1), (2, 2, 3, 2), (3, 1, 2, 5), (1, 3, 1, 2), (0, 1, 1, 1), (2, 1, 0, 1), (0, 2, 2, 2)):
+                    pl.append(f"{len(pl)} prep be={be} kind=vmp p={n},{rows},{ci},{co},{size}")
+                for cols in (1, 2):
+                    for size in (1, 3, 5):
+                        pl.append(f"{len(pl)} consume be={be} p={n},{cols},{size}")
+        rc, pout, _ = ctx.run_lines(binp, ["layout"], pl)
+        rc, pmod, _ = ctx.run_lines(drv, [], [re.sub(r"^(\d+) (prep|consume) be=(fft64|ntt120)(ref|avx)", r"\1 layout \2 be=\3", l) for l in pl])
+        if len(pout) != len(pl):
+            broken.append(f"harness prep run stopped after {len(pout)} of {len(pl)}")
+        zero_rows = None
+        for l, a, b in zip(pl, pout, pmod):
+            t = l.split()
+            ctx.count_case(("prep", t[1], t[2], t[3] if t[1] == "prep" else "", t[-1]))
+            av = a.split(" ", 1)[1]
+            bv = b.split(" ", 1)[1]
+            if t[1] == "consume":
+                same, rest = av.split(" ")
+                cmp_a = same + " " + ",".join(rest.split(",")[:3])
+                inside = rest.split(",")[3]
+                if same != "same=1":
+                    ctx.oracle_failures += 1
+                    oracle_fail.append({"case": l, "impl": a, "why": "vec_znx_idft_apply_consume differs from vec_znx_idft_apply (a source block was overwritten before it was read?)"})
+            else:
+                cmp_a = ",".join(av.split(",")[:3])
+                inside = av.split(",")[3] if av.count(",") >= 3 else "?"
+            if cmp_a != bv:
+                ctx.disagreements += 1
+                if len(disagree) < 10:
+                    disagree.append({"case": l, "model": b, "impl": a})
+            if inside != "1":
+                dims = [int(x) for x in t[-1].split("=")[1].split(",")]
+                if t[1] == "prep" and "kind=vmp" in l and (dims[1] == 0 or dims[3] == 0):
+                    zero_rows = zero_rows or {"case": l, "impl": a, "meaning": "scalar width, buffer bytes, largest slice end, inside"}
+                else:
+                    ctx.oracle_failures += 1
+                    oracle_fail.append({"case": l, "impl": a, "why": "a trait at(i,j)/raw() slice of a prepared layout lies outside its buffer"})
+        ctx.cov["prepared_layout_cases"] = len(pl)
+        if zero_rows:
+            ctx.violation("ZnxView::at on a VmpPMat with zero rows / zero output columns returns a slice outside the (empty) buffer",
+                          {"key": KEY_ZERO_ROWS, "witness": zero_rows}, True, key=KEY_ZERO_ROWS)
         # ---- canaries
         for be in ("fft64ref", "ntt120ref", "fft64avx", "ntt120avx"):
             for n in (2, 4, 8, 16):
